@@ -17,6 +17,7 @@ EVENTS = {
     'okB': ('DEN', 'ABQ', '2019-01-31T08:30:00', None, 'ok'),
     'okA_mass': ('BOS', 'LAX', '2019-01-01T12:00:00', 75000.0, 'ok'),
     'okC': ('DEN', 'LAX', '2019-01-01T12:00:00', None, 'ok'),
+    'okA_rev': ('LAX', 'BOS', '2019-01-01T12:00:00', None, 'ok'),  # the reverse of okA
     # the same missions flown with a second performance model (same ceiling, fuel flow x 1.12)
     'okA@pm2': ('BOS', 'LAX', '2019-01-01T12:00:00', None, 'ok'),
     'okB@pm2': ('DEN', 'ABQ', '2019-01-31T08:30:00', None, 'ok'),
@@ -34,9 +35,9 @@ EVENTS = {
     'wx_outside_domain': ('BOS', 'LAX', '2024-09-01T12:00:00', None, 'ValueError'),
 }
 ALPHABETS = {
-    'plain': ['okA', 'okB', 'okA@pm2', 'okA_mass', 'toXMD', 'toXMD@pm3', 'unknown_airport', 'unknown_origin', 'high_airport', 'mass_out_of_envelope'],
+    'plain': ['okA', 'okA_rev', 'okB', 'okA@pm2', 'okA_mass', 'toXMD', 'toXMD@pm3', 'unknown_airport', 'unknown_origin', 'high_airport', 'mass_out_of_envelope'],
     'plain-small': ['okA', 'okB', 'okB@pm2', 'okA_mass', 'unknown_airport', 'high_airport'],
-    'two-models': ['toXMD', 'toXMD@pm3', 'okA', 'okA@pm2'],
+    'two-models': ['toXMD', 'toXMD@pm3', 'okA', 'okA@pm2', 'okA_rev'],
     'iter-lhv': ['okC', 'okB', 'okB@pm2', 'unknown_airport'],
     'weather': ['wx_ok', 'wx_missing_file', 'wx_outside_domain', 'unknown_airport'],
     'weather-small': ['wx_ok', 'wx_missing_file', 'wx_outside_domain'],
